@@ -146,8 +146,12 @@ func newStore(kind string) store.Store {
 		s := mockstore.NewStore()
 		s.OnChange(cb)
 		return stRegister(s)
-	case "badger", "badger-prefix":
+	case "badger", "badger-prefix", "badger-split":
 		ClearDB()
+		if kind == "badger-split" {
+			// a scheduling point between every transaction closure's return and its commit (rewriter rule R8b)
+			vsched.SplitCommit(true)
+		}
 		s := badgerstore.NewStore(DB)
 		if kind == "badger-prefix" {
 			s.SetPrefix("ba")
@@ -177,9 +181,15 @@ func init() {
 			{{true, "a", []string{"update:2"}}},
 			{{true, "a", []string{"delete"}}},
 		},
+		// two writers on different ids (their transactions overlap: the key lock is per id) and a reader
+		"ST6": {
+			{{true, "a", []string{"create:1"}}, {true, "a", []string{"update:3"}}},
+			{{true, "b", []string{"create:2"}}, {true, "b", []string{"update:4", "value"}}},
+			{{false, "a", []string{"value"}}},
+		},
 	}
 	for pname, prog := range programs {
-		for _, kind := range []string{"mock", "badger", "badger-prefix"} {
+		for _, kind := range []string{"mock", "badger", "badger-prefix", "badger-split"} {
 			pname, prog, kind := pname, prog, kind
 			reg(&Scenario{Name: pname + "-" + kind, Make: func(cfg Cfg) (func(), *Spec) {
 				sp := &Spec{Closes: -1, Store: true}
